@@ -212,12 +212,36 @@ def make_adapter(spec, classes):
     HeaderAdder, RespWrapper = classes
     k = spec["a"]
     if k == "hdr":
-        return HeaderAdder(spec["name"], spec["value"])
+        cls = HeaderAdder
+        if spec.get("nodescr"):
+            cls = _nodescr(HeaderAdder)
+        return cls(spec["name"], spec["value"])
     if k == "wrap":
-        return RespWrapper(spec["tag"])
+        cls = RespWrapper
+        if spec.get("nodescr"):
+            cls = _nodescr(RespWrapper)
+        return cls(spec["tag"])
     if k == "prefix":
         return conn_http.RequestAdapterAddPathPrefix(spec["prefix"])
+    if k == "auth":
+        kind = spec["kind"]
+        if kind == "bauth":
+            return conn_http.BAuthConn.Adapter(spec["login"], spec["password"])
+        if kind == "client":
+            return conn_http.ClientAuthConn.Adapter(spec["client_name"], spec["client_id"], spec["client_secret"])
+        if kind == "token":
+            return conn_http.TokenAuthConn.Adapter(spec["token"], spec.get("token_descr"))
     raise ValueError(k)
+
+
+_ND = {}
+
+
+def _nodescr(cls):
+    """the same adapter without a description of its own (mk_descr of the base class: None)"""
+    if cls not in _ND:
+        _ND[cls] = type(cls.__name__ + "ND", (cls,), {"mk_descr": conn_http.RequestAdapter.mk_descr})
+    return _ND[cls]
 
 
 def b64cred(a, b):
